@@ -10,6 +10,7 @@ import (
 	"bytes"
 	"fmt"
 	"io"
+	"net"
 	"os"
 	"path/filepath"
 	"runtime"
@@ -29,6 +30,8 @@ import (
 	"github.com/uber/kraken/lib/torrent/scheduler/conn"
 	"github.com/uber/kraken/lib/torrent/scheduler/connstate"
 	"github.com/uber/kraken/lib/torrent/scheduler/dispatch"
+	"github.com/uber/kraken/lib/torrent/networkevent"
+	"github.com/uber/kraken/lib/torrent/storage"
 	"github.com/uber/kraken/lib/torrent/storage/agentstorage"
 	"github.com/uber/kraken/lib/torrent/storage/piecereader"
 	"github.com/uber/kraken/tracker/metainfoclient"
@@ -200,6 +203,13 @@ type H struct {
 	peers    map[*dispatch.Dispatcher]*FakePeer
 	peerSeq  int
 
+	// real-socket remote peers that connect to the scheduler (Incoming)
+	selfID   core.PeerID
+	lis      net.Listener
+	inMu     sync.Mutex
+	inConns  []net.Conn
+	Remotes  []*Remote
+
 	stopOnce sync.Once
 	stopDone chan struct{}
 }
@@ -273,6 +283,7 @@ func New(cfg Config) (*H, error) {
 		return nil, err
 	}
 	h.Sched = h.VH.Scheduler()
+	h.selfID = pctx.PeerID
 	return h, nil
 }
 
@@ -482,8 +493,121 @@ func (h *H) NoteRemoval(e scheduler.VerifPending) {
 // ApplyID applies a pending event and lets its consequences settle.
 func (h *H) ApplyID(e scheduler.VerifPending) {
 	h.NoteRemoval(e)
+	if e.Kind == "incomingHandshakeEvent" {
+		// The scheduler answers the handshake on its own goroutine and then sends the
+		// outcome as an event; wait for that event (or for the remote to see a refusal).
+		evs, done := h.countKinds("incomingConnEvent", "failedIncomingHandshakeEvent"), h.remotesDone()
+		h.VH.Apply(e.ID)
+		WaitFor(2*time.Second, func() bool {
+			return h.countKinds("incomingConnEvent", "failedIncomingHandshakeEvent") > evs || h.remotesDone() > done || h.VH.Stopped()
+		})
+		h.Settle()
+		return
+	}
 	h.VH.Apply(e.ID)
 	h.Settle()
+}
+
+// Remote is a remote peer that opened (or is opening) a connection to the scheduler.
+type Remote struct {
+	Blob int
+	mu   sync.Mutex
+	done bool
+	err  error
+	c    *conn.Conn
+}
+
+// Done reports whether the remote's side of the handshake has finished, and how.
+func (r *Remote) Done() (bool, error) {
+	r.mu.Lock()
+	defer r.mu.Unlock()
+	return r.done, r.err
+}
+
+type noConnEvents struct{}
+
+func (noConnEvents) ConnClosed(*conn.Conn) {}
+
+// Incoming lets a fresh remote peer open a real TCP connection to the scheduler for
+// blob i, announcing a full bitfield if full (an empty one otherwise), and waits until
+// the scheduler's side has read the handshake and its incomingHandshakeEvent is
+// pending (or the attempt has already ended). The remote's side completes only after
+// the harness applies that event.
+func (h *H) Incoming(i int, full bool) *Remote {
+	if h.lis == nil {
+		l, err := net.Listen("tcp", "127.0.0.1:0")
+		if err != nil {
+			return nil
+		}
+		h.lis = l
+		go func() {
+			for {
+				nc, err := l.Accept()
+				if err != nil {
+					return
+				}
+				h.inMu.Lock()
+				h.inConns = append(h.inConns, nc)
+				h.inMu.Unlock()
+				go h.VH.Accept(nc)
+			}
+		}()
+	}
+	h.peerSeq++
+	id, _ := core.PeerIDFactory(core.AddrHashPeerIDFactory).GeneratePeerID(fmt.Sprintf("10.0.1.%d", h.peerSeq%250+1), h.peerSeq)
+	cfg := conn.ConfigFixture()
+	cfg.HandshakeTimeout = 20 * time.Second
+	hs, err := conn.NewHandshaker(cfg, tally.NoopScope, clock.New(), networkevent.NewTestProducer(), id, noConnEvents{}, zap.NewNop().Sugar())
+	if err != nil {
+		return nil
+	}
+	b := h.Blobs[i]
+	bits := bitset.New(uint(b.NumPieces()))
+	if full {
+		bits = bits.Complement()
+	}
+	info := storage.NewTorrentInfo(b.MetaInfo, bits)
+	r := &Remote{Blob: i}
+	h.Remotes = append(h.Remotes, r)
+	before := len(h.VH.Pending())
+	go func() {
+		res, err := hs.Initialize(h.selfID, false, h.lis.Addr().String(), info, nil, "ns")
+		r.mu.Lock()
+		r.done, r.err = true, err
+		if err == nil {
+			r.c = res.Conn
+		}
+		r.mu.Unlock()
+	}()
+	WaitFor(2*time.Second, func() bool {
+		if d, _ := r.Done(); d {
+			return true
+		}
+		return len(h.VH.Pending()) > before || h.VH.Stopped()
+	})
+	return r
+}
+
+func (h *H) countKinds(kinds ...string) int {
+	n := 0
+	for _, e := range h.VH.Pending() {
+		for _, k := range kinds {
+			if e.Kind == k {
+				n++
+			}
+		}
+	}
+	return n
+}
+
+func (h *H) remotesDone() int {
+	n := 0
+	for _, r := range h.Remotes {
+		if d, _ := r.Done(); d {
+			n++
+		}
+	}
+	return n
 }
 
 // StartRemove calls Scheduler.RemoveTorrent(blob i) on its own goroutine and waits until it is pending.
@@ -588,6 +712,21 @@ func parkedDownloads() int {
 func (h *H) Close() {
 	for _, p := range h.peers {
 		p.Close()
+	}
+	if h.lis != nil {
+		h.lis.Close()
+	}
+	h.inMu.Lock()
+	for _, nc := range h.inConns {
+		nc.Close()
+	}
+	h.inMu.Unlock()
+	for _, r := range h.Remotes {
+		r.mu.Lock()
+		if r.c != nil {
+			r.c.Close()
+		}
+		r.mu.Unlock()
 	}
 	h.CADS.Close()
 	os.RemoveAll(h.Dir)
